@@ -181,6 +181,7 @@ def run_check(mod, tier, seed, replay=None):
         # verdicts
         violations = []
         known_hits = {}
+        reval = []
         for rid, clause in rejects:
             inp, rec = by_id[rid], rec_by_id[rid]
             sig = mod.signature(inp, rec, clause) if hasattr(mod, "signature") else {"clause": clause}
@@ -193,8 +194,30 @@ def run_check(mod, tier, seed, replay=None):
             if hit:
                 known_hits.setdefault(hit["id"], [hit, 0, inp])
                 known_hits[hit["id"]][1] += 1
+                if "revalidate" in hit:
+                    # dense finding class: the record must be accepted by the requirement
+                    # with exactly the listed deviation enabled, otherwise it is a new violation
+                    r2 = dict(rec)
+                    r2.update(hit["revalidate"]["fields"])
+                    r2["id"] = "rv-" + rid
+                    reval.append((hit["revalidate"].get("trace", mod.TRACE), r2, rid, clause, sig))
             else:
                 violations.append((inp, rec, clause, sig))
+        if reval:
+            groups2 = {}
+            for trace, r2, rid, clause, sig in reval:
+                groups2.setdefault(trace, []).append(r2)
+            bad = {}
+            for trace, rs in groups2.items():
+                rj, st = tlc.judge(trace, rs, label=pid + "-reval")
+                ctx.tlc_states += st["distinct"]
+                ctx.tlc_transitions += st["generated"]
+                for rid2, cl2 in rj:
+                    bad[rid2] = cl2
+            for trace, r2, rid, clause, sig in reval:
+                if r2["id"] in bad:
+                    sig = dict(sig, beyond_known_deviation=bad[r2["id"]])
+                    violations.append((by_id[rid], rec_by_id[rid], clause + " (not explained by the known deviation: " + bad[r2["id"]] + ")", sig))
         for kid, (e, n, inp) in sorted(known_hits.items()):
             print("KNOWN-FINDING: property=%s %s %s (%d cases in this run)" % (pid, kid, e["what"], n))
         shown = 0
